@@ -821,7 +821,6 @@ NO_THEOREM = {
     "C05": _NOTHM + "needs the ownership ledger invariant (I11); the model keeps a per-payload drop ledger (g_drops) that the correspondence compares with the real destructor calls",
     "C06": _NOTHM + "needs the refinement of quiescent states to the reference specification (Seq.v of the design is not written)",
     "C09": _NOTHM + "needs the refinement to the reference specification; the oracle is the reference model itself",
-    "C14": _NOTHM + "needs the pending-notification invariant (I12) for both parked lists",
     "C17": _NOTHM + "needs the allocation inventory invariant; the model keeps the allocation ledger (live/freed) that the correspondence compares with the real allocator events",
 }
 
